@@ -254,7 +254,13 @@ def ispec_record(case, rec):
             return None
     return {'id': case['id'], 'w': rw,
             'opt': {'repeat': o.get('repeat', 1), 'stop': bool(o.get('stop')), 'par': o.get('j', 1) > 1},
-            'procs': procs}
+            'procs': procs,
+            # statistics output: number of "Ran ..." lines, presence of the "Total:" line
+            # (output written without a line end glues itself to the next line:
+            # then the parsed line counts say nothing)
+            'stat': {'known': rec['rep']['crashed'] == '' and '"nl": false' not in json.dumps(world),
+                     'sums': len(rec['rep']['summaries']),
+                     'hasTotal': bool(rec['rep']['hasTotal'])}}
 
 
 def validate_ispec(chk, cases, recs, label=''):
